@@ -2,7 +2,10 @@ package main
 
 import (
 	"fmt"
+	"go/token"
 	"go/types"
+	"reflect"
+	"sort"
 
 	"golang.org/x/tools/go/ssa"
 )
@@ -22,6 +25,8 @@ func checkC02(c *Ctx, r *Report) {
 	}
 	c02PrecField(c, r, a)
 	c02PrecList(c, r, a)
+	r.rule("C02.NATIVE", "the Go list carriers the library walks itself (frozen table: []interface{} and slices of string, int, int64, bool, float32, float64, time.Time) are excluded by a failed type test (or a failed reflect Kind()==Slice test) on every path to AnyResolver.Len/Nth, so the same data gives the same list whichever strategy backs the graph")
+	nativeListRule(c, r, a, "C02.NATIVE", "a root resolver that understands only its own containers reports length 0, so the root-resolver strategy returns an empty list where the interface and reflection strategies return the elements")
 	c02Pipe(c, r, a)
 }
 
@@ -254,4 +259,125 @@ func c02Pipe(c *Ctx, r *Report, a *Anchors) {
 		r.check("C02.PIPE", key+": a returned error is routed through the error adder", am.invoke.Pos(), routed, "the error returned by this arm is not passed to the error adder: a grouped error is not flattened into one entry per member and Extensions of a structured error are lost, unlike in the sibling arms")
 	}
 	r.floor("C02.PIPE", "invocation arms", len(arms), 3)
+}
+
+// ---- native list carriers -----------------------------------------------------
+
+// nativeListTable is the frozen reference set of Go list carriers that the
+// library walks itself on the pinned tree, before any strategy is consulted
+// (DESIGN 4/C02: "ListResolver, []interface{} and typed slices next, AnyResolver
+// before raw reflection"). Each entry is a plain slice of a predeclared element
+// type or of time.Time; the documented examples hold such slices in data served by
+// a root resolver (examples/root: "origin": []string).
+var nativeListTable = []string{"[]interface{}", "[]string", "[]int", "[]int64", "[]bool", "[]float32", "[]float64", "[]time.Time"}
+
+// nativeListSet derives, from the list resolver itself, the dynamic types that
+// are excluded (by a failed type test on the list value) on every path that
+// reaches the root resolver's list accessors. anyKind is true when the
+// accessors are instead reached only after a failed reflect Kind()==Slice test,
+// in which case every slice is walked by the library.
+func (c *Ctx) nativeListSet(a *Anchors) (set []types.Type, anyKind bool, site ssa.CallInstruction) {
+	fn := a.list
+	if fn == nil {
+		return nil, false, nil
+	}
+	var objP *ssa.Parameter
+	for _, p := range fn.Params {
+		if it, ok := p.Type().Underlying().(*types.Interface); ok && it.NumMethods() == 0 {
+			objP = p
+			break
+		}
+	}
+	first := true
+	for _, ci := range callsIn(fn) {
+		cc := ci.Common()
+		f := calleeObj(ci)
+		if f == nil || !cc.IsInvoke() || !c.isNamed(cc.Value.Type(), "AnyResolver") || (f.Name() != "Len" && f.Name() != "Nth") {
+			continue
+		}
+		var here []types.Type
+		kind := false
+		for _, g := range blockGuards(ci.Block()) {
+			if af, ok := assertFactOf(g); ok && !af.holds && stripIface(af.x) == ssa.Value(objP) {
+				if _, isSl := af.t.(*types.Slice); isSl {
+					here = append(here, af.t)
+				}
+			}
+			ng := normGuard(g)
+			if b, ok := ng.cond.(*ssa.BinOp); ok && (b.Op == token.EQL || b.Op == token.NEQ) {
+				for _, side := range []ssa.Value{b.X, b.Y} {
+					if call, ok := side.(*ssa.Call); ok {
+						if cf := calleeObj(call); cf != nil && cf.Name() == "Kind" && cf.Pkg() != nil && cf.Pkg().Path() == "reflect" {
+							other := b.Y
+							if side == b.Y {
+								other = b.X
+							}
+							if k, ok := other.(*ssa.Const); ok && k.Value != nil && k.Int64() == int64(reflect.Slice) {
+								if (b.Op == token.EQL) != ng.val { // Kind()==Slice is false here
+									kind = true
+								}
+							}
+						}
+					}
+				}
+			}
+		}
+		if first {
+			set, anyKind, site, first = here, kind, ci, false
+			continue
+		}
+		// every accessor call must be behind the exclusions: intersect
+		var keep []types.Type
+		for _, t := range set {
+			for _, u := range here {
+				if types.Identical(t, u) {
+					keep = append(keep, t)
+					break
+				}
+			}
+		}
+		set, anyKind = keep, anyKind && kind
+	}
+	return
+}
+
+// nativeListRule emits, for property prop, one obligation per entry of the frozen table.
+func nativeListRule(c *Ctx, r *Report, a *Anchors, rule, why string) {
+	set, anyKind, site := c.nativeListSet(a)
+	if site == nil {
+		// no root-resolver list arm at all: every list is walked by the library or by reflection
+		r.Notes = append(r.Notes, rule+": the list resolver has no root-resolver accessor call; nothing to exclude")
+		return
+	}
+	var derived []string
+	for _, t := range set {
+		derived = append(derived, types.TypeString(t, func(p *types.Package) string { return p.Name() }))
+	}
+	sort.Strings(derived)
+	r.Tables[rule+" frozen native list carriers"] = nativeListTable
+	r.Tables[rule+" carriers excluded before the root resolver's list accessors (derived on this run)"] = derived
+	for _, want := range nativeListTable {
+		ok := anyKind
+		for _, d := range derived {
+			if d == want {
+				ok = true
+			}
+		}
+		r.check(rule, fmt.Sprintf("%s: a %s value is walked by the library, not handed to the root resolver's Len/Nth", fnName(a.list), want), site.Pos(), ok,
+			fmt.Sprintf("a Go %s reaches AnyResolver.Len/Nth when a root resolver is installed: %s", want, why))
+	}
+}
+
+type natInfo struct {
+	set     []types.Type
+	anyKind bool
+	site    ssa.CallInstruction
+}
+
+func (c *Ctx) nativeListSetMemo() ([]types.Type, bool, ssa.CallInstruction) {
+	if c.natMemo == nil {
+		s, k, site := c.nativeListSet(c.anchors())
+		c.natMemo = &natInfo{s, k, site}
+	}
+	return c.natMemo.set, c.natMemo.anyKind, c.natMemo.site
 }
